@@ -23,6 +23,7 @@ pub struct Flags {
     pub ow: bool,
     pub keep: bool,
     pub split: bool,
+    pub many: bool,
     pub dup: u32,
 }
 
@@ -34,6 +35,7 @@ pub fn parse_flags(s: &str) -> Flags {
         ow: s.contains('o'),
         keep: s.contains('k'),
         split: s.contains('x'),
+        many: s.contains('m'),
         dup: digits.parse().unwrap_or(0),
     }
 }
@@ -461,16 +463,25 @@ pub fn storm_line(toks: &[&str]) -> String {
         return "bad-op".into();
     }
     let listener: SocketAddr = format!("127.0.0.1:{}", port).parse().unwrap();
-    let socks: Vec<UdpSocket> = (0..3).map(|_| UdpSocket::bind("127.0.0.1:0").unwrap()).collect();
+    // 'm' (many sources): every datagram of the batch comes from its own fresh endpoint
+    let nsock = if fl.many { toks.len() - 5 } else { 3 };
+    let socks: Vec<UdpSocket> = (0..nsock).map(|_| UdpSocket::bind("127.0.0.1:0").unwrap()).collect();
     for (i, h) in toks[5..].iter().enumerate() {
         let Some(d) = unhex(h) else { return "bad-op".into() };
-        let _ = socks[i % 3].send_to(&d, listener);
+        let _ = socks[i % nsock].send_to(&d, listener);
+        if fl.many && i % 16 == 15 {
+            std::thread::sleep(Duration::from_millis(2));
+        }
     }
     // drain: whoever answered is told to stop (ends workers the batch may have started)
     for _round in 0..2 {
+        if fl.many {
+            // one wait for the whole batch, then a quick poll of every endpoint
+            std::thread::sleep(ms(40, 400));
+        }
         for s in &socks {
             let mut n = 0;
-            while let Some((p, from, _)) = recv_packet(s, ms(8, 200)) {
+            while let Some((p, from, _)) = recv_packet(s, if fl.many { Duration::from_millis(1) } else { ms(8, 200) }) {
                 // never answer an ERROR (the listener answers a stray ERROR with an ERROR: endless ping-pong)
                 if !matches!(p, Ok(Packet::Error { .. })) {
                     send_error(s, &from);
